@@ -6,4 +6,6 @@ WT="/var/tmp/seedwt-$$"
 git -C /repo worktree add -q "$WT" HEAD
 trap 'git -C /repo worktree remove --force "$WT" >/dev/null 2>&1 || true' EXIT
 git -C "$WT" apply "$P"
+EVBAK=$(mktemp -d /var/tmp/evbak.XXXX); cp /verif/evidence/*.json "$EVBAK"/ 2>/dev/null
 cd /verif && GV_REPO="$WT" ./check "$ID" --tier "$TIER" 2>&1 | tail -${TAIL:-12}
+cp "$EVBAK"/*.json /verif/evidence/ 2>/dev/null; rm -rf "$EVBAK"
